@@ -11,6 +11,7 @@ ENV = dict(os.environ, GOFLAGS="-mod=mod", GOPROXY="off", GOSUMDB="off", GOTOOLC
 MOD = "github.com/cloudflare/pat-go"
 
 def run_one(path):
+    path = os.path.abspath(path)
     tmp = tempfile.mkdtemp(prefix="govc-refactor-")
     try:
         dst = os.path.join(tmp, "repo")
